@@ -9,6 +9,25 @@ from .. import core
 _MAX_FAILS_PER_CHUNK = 50
 
 
+def guarded(fn, c):
+    """fn(c); an exception that the check function did not anticipate is a VIOLATION when it was raised
+    inside the package under test (innermost frame in $VERIF_REPO) - no property allows an operation on
+    the inputs the checks build to end in an unanticipated exception - and a checker crash otherwise"""
+    try:
+        return fn(c)
+    except Exception as e:
+        import os
+        import traceback
+        tb = traceback.extract_tb(e.__traceback__)
+        inner = tb[-1] if tb else None
+        repo = os.path.realpath(core.REPO) + os.sep
+        if inner is not None and os.path.realpath(inner.filename).startswith(repo):
+            where = '%s:%d in %s' % (os.path.relpath(os.path.realpath(inner.filename), repo), inner.lineno, inner.name)
+            return [('raises:unexpected', 'the code under test raised %s (%s) at %s' % (type(e).__name__, str(e)[:120], where),
+                     {'exception': type(e).__name__})]
+        return [('checker-exception', '%s: %s' % (type(e).__name__, traceback.format_exc()[-600:]))]
+
+
 def _work(arg):
     modname, fname, ntname, cases = arg
     mod = importlib.import_module(modname)
@@ -18,12 +37,7 @@ def _work(arg):
     keys = set()
     total = 0
     for c in cases:
-        try:
-            fs = fn(c)
-        except Exception as e:       # the check function itself must not crash
-            import traceback
-            fs = [('checker-exception', '%s: %s' % (type(e).__name__,
-                                                    traceback.format_exc()[-600:]))]
+        fs = guarded(fn, c)
         if isinstance(fs, dict):
             # the check function measured its own sub-cases
             total += fs['n']
@@ -48,8 +62,9 @@ def replay_script(modname, fname, case, kind):
     return ("import sys\n"
             "sys.path.insert(0, %r)\n"
             "from %s import %s\n"
+            "from vf.rtc.driver import guarded\n"
             "case = %s\n"
-            "fails = %s(case)\n"
+            "fails = guarded(%s, case)\n"
             "fails = fails['fails'] if isinstance(fails, dict) else fails\n"
             "hits = [f for f in fails if f[0] == %r]\n"
             "for f in fails: print('FAIL', f)\n"
